@@ -261,7 +261,7 @@ def c01(tier, seed, replay, keep):
 
 def c02(tier, seed, replay, keep):
     return engine_check("C02", tier, seed, replay, scen.c02, rule_signal, "4/C02", ASSUME_COMMON + [
-        "three scenarios run MakeCheck under a real test deadline (-test.timeout=9s) with a 6 s falsifying test case: only the sub-test's status is observed"],
+        "three scenarios run MakeCheck under a real test deadline (-test.timeout=12s) with an 8 s falsifying test case: only the sub-test's status is observed"],
         keep, more_traces=deadline_runner(scen.c02_deadline, tier, seed))
 
 
@@ -281,7 +281,14 @@ def deadline_runner(gen, tier, seed):
         with cf.ThreadPoolExecutor(max_workers=len(sc)) as ex:
             def one(j):
                 out = os.path.join(wd, f"deadline{j}.ndjson")
-                core.run_harness(binary, [sc[j]], out, core.ENGINE_EVENTS, timeout=120, extra=("-test.timeout", "9s"))
+                for attempt in range(3):
+                    try:
+                        core.run_harness(binary, [sc[j]], out, core.ENGINE_EVENTS, timeout=120, extra=("-test.timeout", sc[j].get("tag", {}).get("timeout", "9s")))
+                        break
+                    except core.Undecided:
+                        # on a heavily loaded machine the test binary itself can run into its -test.timeout (it then dies without a verdict): try again
+                        if attempt == 2:
+                            raise
                 return out
             paths = list(ex.map(one, range(len(sc))))
         return sc, paths
